@@ -108,7 +108,27 @@ def flatten_str(t):
             else:
                 out.append(("hole", p))
         return out
+    if t[0] == "ite":
+        # (P + X + S if c else P + Y + S)  ==  P + (X if c else Y) + S
+        a, b = flatten_str(t[2]), flatten_str(t[3])
+        n = 0
+        while n < len(a) and n < len(b) and a[n] == b[n]:
+            n += 1
+        m = 0
+        while m < len(a) - n and m < len(b) - n and a[len(a) - 1 - m] == b[len(b) - 1 - m]:
+            m += 1
+        if n or m:
+            mid_a, mid_b = a[n:len(a) - m], b[n:len(b) - m]
+            return a[:n] + [("hole", simp(("ite", t[1], _rebuild(mid_a), _rebuild(mid_b))))] + (a[len(a) - m:] if m else [])
     return [("hole", t)]
+
+
+def _rebuild(pieces):
+    out = None
+    for k, v in merge_lits(pieces):
+        x = C(v) if k == "lit" else v
+        out = x if out is None else simp(("strcat", out, x))
+    return out if out is not None else C("")
 
 
 def merge_lits(pieces):
